@@ -8,6 +8,7 @@
 -/
 import TrompModel.Gen.Cxx.RangePrinters
 import TrompModel.Gen.Cxx.SetPredicatePrinters
+import TrompModel.Gen.Cxx.MemberIsPrinter
 import TrompModel.Tie.Base
 
 namespace Tromp.Tie
@@ -27,5 +28,10 @@ theorem printers_covered :
        "ends_with_range_printer"] ∧
     Cxx.set_predicate_printers.map (·.1) = ["any_of_printer", "none_of_printer", "all_of_printer"] := by
   constructor <;> decide
+
+/-- `MEMBER_IS(member, value)`: the member's name (a string literal made by the macro) is streamed, the held value goes through
+    `trompeloeil::print` (finding F16). -/
+theorem member_is_value_goes_through_print :
+    Cxx.member_is_printer = [("match_member_is", [("raw", "name"), ("print", "compare")])] := by decide
 
 end Tromp.Tie
